@@ -123,11 +123,11 @@ def corr_parse(patterns, flagsets, bytes_modes=(0, 1), nproc=16, skip=None):
                 samples.append({'pattern': pats[k], 'flags': flag_names(fv), 'bytes': bool(isb),
                                 'regex': dec(outs[k][3:]) if outs[k].startswith('ok ') else outs[k]})
     r = result(evals, len(texts), dis, samples, {'cases_per_flagset': per_flag})
-    r['disagreeing_patterns'] = rank_disagreements([d for d in dis if not d['bytes']])
+    r['disagreeing_patterns'] = rank_disagreements([d for d in dis if not d['bytes']], examples=r.setdefault('semantic_examples', []))
     return r
 
 
-def rank_disagreements(dis, examine=3000, keep=400):
+def rank_disagreements(dis, examine=3000, keep=400, examples=None):
     """Order the patterns on which the regex text differs for the directed search: first those where the two regex
     texts (model = the code as it was modelled, impl = the code now) *behave* differently on some short name
     (a semantic difference, found by running both through `re`), shortest first; then the rest."""
@@ -159,6 +159,11 @@ def rank_disagreements(dis, examine=3000, keep=400):
         else:
             hit = ''     # one side raised: a behavioural difference by itself
         (sem if hit is not None else other).append((d['pattern'], d['flags']))
+        if hit and examples is not None and len(examples) < 40:
+            examples.append({'pattern': d['pattern'], 'flags': d['flag_names'], 'name': hit,
+                             'regex_now_accepts': bool(ri.fullmatch(hit)), 'modelled_regex_accepts': bool(rm.fullmatch(hit))})
+    if examples is not None:
+        examples.sort(key=lambda e: (len(e['pattern']), len(e['name'])))
     key = lambda x: (len(x[0]), x[0])
     sem = sorted(set(sem), key=key)
     other = sorted(set(other), key=key)
